@@ -895,6 +895,8 @@ def orc_noise_ceiling(case):
             got = cv_noise_ceiling(rdms, [(train, given)], [(test, given)], method=method, **kw)
         what = f'cv_noise_ceiling({method}) with test patterns {list(case["sample"])}'
     got = np.array(got, dtype=float)
+    if not np.all(np.isfinite([lo, hi])):
+        return None      # a pooled training RDM that is constant on the remaining entries: the correlation is 0/0 by definition
     if not close(got, np.array([lo, hi]), _dtype_tol(1e-8, case.get('dtype'))):
         return f'{what}: got (lower, upper) = {_fmt(got)}, definition on the entry-deleted RDMs gives {_fmt([lo, hi])}'
     return None
@@ -1975,6 +1977,9 @@ def tier_c(run, thorough):
 # dimension sweeps (tools/SWEEP_BRIEF.md): the same clauses, inputs varied along further dimensions
 # =====================================================================================================
 UNIT_PAIRS = [(1e-12, 1.0), (1.0, 1e-20), (1e8, 1e-12), (1e12, 1e12)]
+# input classes that fail on the unchanged tree and wait for triage (see the module docstring); True = registered
+PENDING_UNITS_WHITENED = False
+PENDING_UNITS_NN = False
 
 
 def _seeded_masks(rs, P, kmax, count, kmin=1):
@@ -2053,6 +2058,415 @@ def _sweeps(run, thorough, bds):
     bd.done()
     bds.append(bd)
 
+    # ---------------------------------------------------------------- compare, generated masks
+    bd = Bounded(run, 'C13/compare-generated[sample order and container, labels, typed, units, stack sizes]',
+                 'C13/compare/oracle/generated-mask-equals-entry-deleted',
+                 'pattern bootstrap samples given in non-ascending order with interleaved repeats as list / tuple / ndarray, patterns '
+                 'selected by index / int labels / str labels whose order differs from the pattern order; from_partials with int / str '
+                 'condition labels, the pattern descriptor as tuple / ndarray; float32 stacks; stacks times 1e-12 .. 1e8; 1x3 and 3x1 '
+                 'RDMs; 8 vector measures (+ bures, bures_metric for from_partials), sigma_k None / matrix', function='compare')
+    samples = [(4, [3, 0, 3, 1]), (5, [3, 1, 3, 0, 4]), (5, [4, 4, 0, 2, 1]), (5, [1, 0, 1, 0, 3]), (5, [2, 4, 2, 0, 2])]
+    if thorough:
+        samples += [(6, [5, 0, 5, 2, 2, 1]), (6, [1, 3, 0, 3, 1, 3]), (7, [6, 2, 6, 0, 1, 2, 4])]
+    variants = [('list', 'index'), ('tuple', 'int'), ('ndarray', 'str'), ('ndarray', 'index'), ('list', 'str')]
+    for si, (n, sample) in enumerate(samples):
+        for vi, (form, by) in enumerate(variants):
+            if not thorough and (si + vi) % 2:
+                continue
+            for method in VEC_METHODS:
+                for s in sig_for(method, ('none', 'matrix')):
+                    c0 = dict(seed=8000 + 10 * si + vi, kind='subsample', spec=dict(n_cond=n, sample=sample, sample_form=form, by=by),
+                              method=method, sigma=s)
+                    bd.check(orc_compare_generated, dict(c0, n1=2, n2=2), 'bootstrap-mask,sample-unsorted', function='subsample_pattern')
+                    if vi == si % len(variants) or thorough:
+                        bd.check(orc_compare_generated, dict(c0, n1=1, n2=3, dtype1='float32', dtype2='float32'),
+                                 'bootstrap-mask,typed-float32', function='subsample_pattern')
+                        bd.check(orc_compare_generated, dict(c0, n1=3, n2=1, unit1=1e-12, unit2=1e8), 'bootstrap-mask,units',
+                                 function='subsample_pattern')
+    pi = 0
+    for n_all in ((4, 5, 6) if thorough else (5,)):
+        for n_miss in (1, 2):
+            for miss in itertools.combinations(range(n_all), n_miss):
+                sub = [i for i in range(n_all) if i not in miss]
+                pi += 1
+                if len(sub) < 3 or (not thorough and pi % 3):
+                    continue
+                labels, cform = (('int', 'tuple'), ('str', 'ndarray'), ('int', 'ndarray'))[pi % 3]
+                subv = sub[::-1] if pi % 2 else sub
+                for method in VEC_METHODS + SPEC_MAT_METHODS:
+                    for s in sig_for(method, ('none', 'matrix')):
+                        c0 = dict(seed=8500 + pi, kind='partials', spec=dict(n_all=n_all, sub=subv, labels=labels, conds_form=cform),
+                                  method=method, sigma=s)
+                        bd.check(orc_compare_generated, dict(c0, n1=1, n2=3), 'partials-mask,labels', function='from_partials')
+                        bd.check(orc_compare_generated, dict(c0, n1=2, n2=2, dtype1='float32', dtype2='float32'),
+                                 'partials-mask,typed-float32', function='from_partials')
+                        bd.check(orc_compare_generated, dict(c0, n1=2, n2=1, unit1=1e8, unit2=1e-12), 'partials-mask,units',
+                                 function='from_partials')
+    bd.done()
+    bds.append(bd)
+
+    bd = Bounded(run, 'C13/compare-whole-condition[typed, units, stack sizes]', 'C13/compare/oracle/whole-condition-mask-equals-sub-rdm',
+                 'metamorphic: drop 1-2 whole conditions from n_all=5%s (every %s subset); float32 stacks; stacks times 1e-12 .. 1e8 '
+                 '(not neg_riem_dist); 1x3 RDMs; sigma_k None / vector / matrix' % (', 6' if thorough else '', 'one' if thorough else 'third'),
+                 function='compare')
+    wi = 0
+    for n_all in ((5, 6) if thorough else (5,)):
+        for n_miss in (1, 2):
+            for miss in itertools.combinations(range(n_all), n_miss):
+                sub = [i for i in range(n_all) if i not in miss]
+                wi += 1
+                if not thorough and wi % 3:
+                    continue
+                for method in ALL_METHODS:
+                    for s in sig_for(method):
+                        c0 = dict(seed=8800 + wi, n_all=n_all, sub=sub, method=method, sigma=s)
+                        if method != 'neg_riem_dist':
+                            bd.check(orc_compare_whole_condition, dict(c0, n1=1, n2=3, dtype1='float32', dtype2='float32'),
+                                     'whole-condition-mask,typed-float32', function='compare')
+                            bd.check(orc_compare_whole_condition, dict(c0, n1=2, n2=2, unit1=1e-12, unit2=1e8),
+                                     'whole-condition-mask,units', function='compare')
+                        elif thorough or wi % 6 == 0:
+                            bd.check(orc_compare_whole_condition, dict(c0, n1=1, n2=2), 'whole-condition-mask,stack-sizes',
+                                     function='compare')
+    bd.done()
+    bds.append(bd)
+
+    bd = Bounded(run, 'C13/from-partials[labels, containers, typed, units, sizes]', 'C13/from_partials/oracle/literal-placement',
+                 'the lists of partial RDMs of C13/from-partials with integer condition labels (order differs from alphabetical), the '
+                 'pattern descriptor as tuple / ndarray, float32 partial RDMs, values times 1e-12 / 1e8; partial RDMs of 2 conditions '
+                 '(one pair), the same condition set twice, 5 partial objects', function='from_partials')
+    fp_cases = [
+        dict(parts=[['b', 'c', 'd']], n_rdms=[2], all_patterns=['a', 'b', 'c', 'd']),
+        dict(parts=[['d', 'c', 'b']], n_rdms=[1], all_patterns=['a', 'b', 'c', 'd']),
+        dict(parts=[['a', 'c', 'd'], ['b', 'c', 'd']], n_rdms=[1, 2], all_patterns=['d', 'a', 'c', 'b', 'e']),
+        dict(parts=[['a', 'b', 'c'], ['c', 'd', 'e'], ['e', 'a', 'b', 'd']], n_rdms=[1, 1, 1], all_patterns=None),
+        dict(parts=[['c', 'a', 'b'], ['d', 'b', 'a']], n_rdms=[2, 1], all_patterns=None),
+        dict(parts=[['b', 'd', 'a', 'c'], ['a', 'c']], n_rdms=[1, 1], all_patterns=['a', 'b', 'c', 'd']),
+        dict(parts=[['e', 'b'], ['b', 'a'], ['d', 'e']], n_rdms=[1, 3, 1], all_patterns=None),
+        dict(parts=[['c', 'a', 'd'], ['c', 'a', 'd'], ['a', 'd', 'c']], n_rdms=[1, 2, 1], all_patterns=None),
+        dict(parts=[['e', 'd'], ['d', 'c'], ['c', 'b'], ['b', 'a'], ['a', 'e']], n_rdms=[1, 1, 1, 1, 1], all_patterns=None),
+        dict(parts=[['e', 'd', 'c', 'b', 'a']], n_rdms=[3], all_patterns=['a', 'b', 'c', 'd', 'e']),
+    ]
+    for fi_, c in enumerate(fp_cases):
+        cls = 'all_patterns-given' if c['all_patterns'] else 'all_patterns-none'
+        for vi, extra in enumerate((dict(), dict(label_map='int'), dict(conds_form='tuple'), dict(conds_form='ndarray', label_map='int'),
+                                    dict(dtype='float32'), dict(unit=1e-12), dict(unit=1e8, conds_form='ndarray'))):
+            if vi == 0 and fi_ < 6:
+                continue        # already in C13/from-partials
+            bd.check(orc_from_partials, dict(c, seed=9000 + fi_, **extra), cls + ',' + '+'.join(sorted(extra)) if extra else cls,
+                     function='from_partials')
+    bd.done()
+    bds.append(bd)
+
+    # ---------------------------------------------------------------- compare, differing masks
+    bd = Bounded(run, 'C13/compare-differing[row position, typed, units, forms]', 'C13/compare/oracle/differing-masks-rejected',
+                 'n_cond=4: stacks of 3-4 RDMs in which only the LAST / a middle RDM has another mask (in rdm1, in rdm2, against '
+                 'stacks of 1-3 RDMs); the differing masks of C13/compare-differing (every %s pair) as float32 stacks, stacks times '
+                 '1e-20 / 1e12, stacks given as square matrices; %d methods' % ('one' if thorough else 'seventh', len(ALL_METHODS)),
+                 function='_parse_input_rdms')
+    n, P = 4, 6
+    singles = list(_masks_upto(P, 2))
+    ci = 0
+    for m1 in singles[:8]:
+        for m2 in singles[:8]:
+            if set(m1) == set(m2):
+                continue
+            ci += 1
+            if not thorough and ci % 3:
+                continue
+            stacks = ([m1, m1, m2], [m1, m1, m1, m2], [m1, m2, m1])
+            for st in stacks:
+                for other in ([m1], [m1, m1, m1]):
+                    for order in (0, 1):
+                        rows1, rows2 = (st, other) if order == 0 else (other, st)
+                        for method in (ALL_METHODS if thorough else ('cosine', 'kendall', 'corr_cov')):
+                            bd.check(orc_compare_differ, dict(seed=9100 + ci, n_cond=n, rows1=rows1, rows2=rows2, method=method),
+                                     _mask_class(rows1, rows2, P), function='_parse_input_rdms')
+    ci = 0
+    for m1 in singles:
+        for m2 in singles:
+            if set(m1) == set(m2):
+                continue
+            ci += 1
+            if not thorough and ci % 7:
+                continue
+            rows1, rows2 = [m1, m1], [m2]
+            for method in (ALL_METHODS if thorough else ('cosine', 'corr', 'spearman', 'tau-a', 'cosine_cov')):
+                for extra in (dict(dtype1='float32', dtype2='float32'), dict(dtype2='float32'), dict(unit1=1e-20, unit2=1e-20),
+                              dict(unit1=1e12, unit2=1e-20), dict(form1='matrices', form2='matrices')):
+                    bd.check(orc_compare_differ, dict(seed=9300 + ci, n_cond=n, rows1=rows1, rows2=rows2, method=method, **extra),
+                             _mask_class(rows1, rows2, P), function='_parse_input_rdms')
+    bd.done()
+    bds.append(bd)
+
+    bd = Bounded(run, 'C13/compare-differing-generated[sample order and container, labels]',
+                 'C13/compare/oracle/differing-generated-masks-rejected',
+                 'two different pattern bootstrap samples given in non-ascending order as tuple / ndarray and selected by int / str '
+                 'labels; the same multiset of patterns in two orders is the SAME mask and is not part of this domain', function='subsample_pattern')
+    boots = [([3, 0, 3, 1], [1, 3, 1, 0]), ([2, 2, 0, 1], [2, 0, 0, 1]), ([3, 3, 1, 3], [1, 3, 1, 1]), ([0, 3, 2, 0], [3, 2, 1, 0]),
+             ([3, 2, 1, 0], [2, 1, 2, 0])]
+    for gi, (b1, b2) in enumerate(boots):
+        for vi, (form, by) in enumerate((('tuple', 'int'), ('ndarray', 'str'), ('list', 'index'))):
+            a = [k for k, (i, j) in enumerate(_pairs(4)) if sorted(b1)[i] == sorted(b1)[j]]
+            b = [k for k, (i, j) in enumerate(_pairs(4)) if sorted(b2)[i] == sorted(b2)[j]]
+            for order in (0, 1):
+                s1, s2, ma, mb = (b1, b2, a, b) if order == 0 else (b2, b1, b, a)
+                for method in (ALL_METHODS if thorough else ('cosine', 'rho-a', 'corr_cov')):
+                    bd.check(orc_compare_differ_generated,
+                             dict(seed=9500 + gi, kind1='subsample', spec1=dict(n_cond=4, sample=s1, sample_form=form, by=by), n1=2,
+                                  kind2='subsample', spec2=dict(n_cond=4, sample=s2, sample_form=form, by=by), n2=1, method=method),
+                             _mask_class([ma], [mb], 6), function='subsample_pattern')
+    bd.done()
+    bds.append(bd)
+
+    # ---------------------------------------------------------------- pooling
+    bd = Bounded(run, 'C13/pool[stack sizes, typed, units, repeated calls]', 'C13/pool_rdm/oracle/common-mask-equals-entry-deleted',
+                 'both copies of pool_rdm on n_cond=4 (masks <= 2 missing, every %s) and 5 (<= 1 missing): stacks of 1, 2 and 5 RDMs; '
+                 'float32 stacks; uint8 / int16 complete stacks; stack times 1e-12 / 1e8 and one unit per RDM (1e-12, 1, 1e6); the '
+                 'identical call repeated after another stack of the same shape with another mask'
+                 % ('one' if thorough else 'third'), function='pool_rdm')
+    pbase = [(4, m) for m in (m4 if thorough else m4[::3])] + [(5, m) for m in (m5 if thorough else m5[::4])]
+
+    def pool_both(case, cls, whitened_cls=None):
+        method = case['method']
+        bd.check(orc_pool, dict(case, copy='inference_util'), cls, function='util.inference_util.pool_rdm')
+        if method == 'neg_riem_dist':
+            return
+        for s in sig_for(method, ('none', 'matrix')):
+            bd.check(orc_pool, dict(case, copy='pooling', sigma=s), whitened_cls if (whitened_cls and method.endswith('_cov')) else cls,
+                     function='util.pooling.pool_rdm')
+    for bi, (n, missing) in enumerate(pbase):
+        for method in POOL_METHODS:
+            c0 = dict(seed=9600 + 20 * n + bi, n_cond=n, missing=missing, method=method)
+            for R in (1, 2, 5):
+                pool_both(dict(c0, n_rdm=R), 'stack-sizes')
+            pool_both(dict(c0, n_rdm=3, dtype='float32'), 'typed-float32')
+            pool_both(dict(c0, n_rdm=3, again=True), 'repeated-call')
+            pool_both(dict(c0, n_rdm=3, units=1e8), 'units-large')
+            pool_both(dict(c0, n_rdm=3, units=[1e-3, 1.0, 1e6]), 'units-per-rdm')
+            if PENDING_UNITS_WHITENED:
+                pool_both(dict(c0, n_rdm=3, units=1e-12), 'units-tiny', 'units-tiny,whitened-pooling')
+                pool_both(dict(c0, n_rdm=3, units=[1e-12, 1.0, 1e6]), 'units-per-rdm', 'units-tiny,whitened-pooling')
+            else:
+                bd.check(orc_pool, dict(c0, n_rdm=3, units=1e-12, copy='inference_util'), 'units-tiny', function='util.inference_util.pool_rdm')
+                bd.check(orc_pool, dict(c0, n_rdm=3, units=[1e-12, 1.0, 1e6], copy='inference_util'), 'units-per-rdm',
+                         function='util.inference_util.pool_rdm')
+                if not method.endswith('_cov') and method != 'neg_riem_dist':
+                    bd.check(orc_pool, dict(c0, n_rdm=3, units=1e-12, copy='pooling', sigma='none'), 'units-tiny',
+                             function='util.pooling.pool_rdm')
+            if method in ('spearman', 'kendall'):
+                pool_both(dict(c0, n_rdm=4, ties=True, dtype='float32'), 'typed-float32')
+    for ti, (dt, lev) in enumerate((('uint8', 250), ('int16', 30000))):
+        for method in POOL_METHODS:
+            pool_both(dict(seed=9900 + ti, n_cond=4, n_rdm=3, missing=[], method=method, dtype=dt, levels=lev), 'typed-integer,no-missing')
+    bd.done()
+    bds.append(bd)
+
+    # ---------------------------------------------------------------- noise ceilings
+    bd = Bounded(run, 'C13/noise-ceiling[stack sizes, groups, typed, units, sample order and labels]',
+                 'C13/noise_ceiling/oracle/common-mask-equals-entry-deleted',
+                 'boot_noise_ceiling on n_cond=4 masks (<= 2 missing, every %s): 2 RDMs; 5 RDMs grouped by a str rdm descriptor with '
+                 'interleaved, unbalanced values (one level left out at a time); float32; one unit per RDM (1e-12 .. 1e6); '
+                 'cv_noise_ceiling with test patterns in non-ascending order as list / tuple / ndarray, selected by index / str labels; '
+                 '8 methods' % ('one' if thorough else 'fourth'), function='boot_noise_ceiling')
+    for bi, missing in enumerate(m4 if thorough else m4[::4]):
+        for method in VEC_METHODS:
+            c0 = dict(seed=10000 + bi, kind='boot', n_cond=4, missing=missing, method=method)
+            bd.check(orc_noise_ceiling, dict(c0, n_rdm=2), 'stack-sizes', function='boot_noise_ceiling')
+            bd.check(orc_noise_ceiling, dict(c0, n_rdm=5, groups=['s2', 's10', 's2', 's1', 's2']), 'rdm-groups', function='boot_noise_ceiling')
+            bd.check(orc_noise_ceiling, dict(c0, n_rdm=3, dtype='float32'), 'typed-float32', function='boot_noise_ceiling')
+            bd.check(orc_noise_ceiling, dict(c0, n_rdm=3, units=[1e-12, 1.0, 1e6]), 'units-per-rdm', function='boot_noise_ceiling')
+            bd.check(orc_noise_ceiling, dict(c0, n_rdm=4, units=1e8, groups=['b', 'a', 'a', 'b']), 'units-large', function='boot_noise_ceiling')
+    for si, (sample, form, by) in enumerate([([3, 1, 3, 0, 4], 'list', 'index'), ([4, 4, 0, 2, 1], 'tuple', 'str'),
+                                             ([1, 0, 1, 0, 3], 'ndarray', 'str'), ([2, 4, 2, 0, 2], 'tuple', 'index')]):
+        for tr, te in (([0, 1], [2, 3]), ([0, 2, 3], [1])):
+            for method in VEC_METHODS:
+                c0 = dict(seed=10100 + si, kind='cv', n_cond=5, n_rdm=4, sample=sample, sample_form=form, by=by, train=tr, test=te,
+                          method=method)
+                bd.check(orc_noise_ceiling, c0, 'bootstrap-mask,sample-unsorted', function='cv_noise_ceiling')
+                if thorough or si % 2 == 0:
+                    bd.check(orc_noise_ceiling, dict(c0, dtype='float32'), 'bootstrap-mask,typed-float32', function='cv_noise_ceiling')
+                    bd.check(orc_noise_ceiling, dict(c0, units=[1e-12, 1e8, 1.0, 1e-6]), 'bootstrap-mask,units-per-rdm',
+                             function='cv_noise_ceiling')
+    bd.done()
+    bds.append(bd)
+
+    # ---------------------------------------------------------------- fit_regress
+    fit_methods = ['cosine', 'corr', 'cosine_cov', 'corr_cov']
+    bd = Bounded(run, 'C13/fit-regress[sizes, typed, units, sample order and labels, repeated calls]',
+                 'C13/fit_regress/oracle/common-mask-equals-entry-deleted',
+                 'fit_regress / fit_regress_nn on n_cond=4 masks (<= 2 missing, every %s) and n_cond=5 (<= 1): 1 and 3 basis RDMs, 1 and '
+                 '4 data RDMs; float32 model / data; data times 1e-12 / 1e8 and one unit per data RDM; model times 1e-6 / 1e4 '
+                 '(fit_regress, unwhitened and whitened); the identical call after a fit of other RDMs; pattern_idx route with '
+                 'samples in non-ascending order as list / tuple / ndarray and str labels; 4 methods, sigma_k None / matrix'
+                 % ('one' if thorough else 'fourth'), function='fit_regress')
+    fbase = [(4, m) for m in (m4 if thorough else m4[::4])] + [(5, m) for m in (m5 if thorough else m5[::5])]
+    for bi, (n, missing) in enumerate(fbase):
+        for method in fit_methods:
+            for s in sig_for(method, ('none', 'matrix')):
+                for nonneg in (False, True):
+                    fn = 'fit_regress_nn' if nonneg else 'fit_regress'
+                    c0 = dict(seed=10200 + 20 * n + bi, route='explicit', n_cond=n, missing=missing, method=method, sigma=s, nonneg=nonneg,
+                              ridge=0.0)
+                    for kb, R in ((1, 3), (3, 1), (2, 4)):
+                        bd.check(orc_fit_regress, dict(c0, n_basis=kb, n_rdm=R), 'sizes', function=fn)
+                    c1 = dict(c0, n_basis=2, n_rdm=3)
+                    bd.check(orc_fit_regress, dict(c1, dtype_model='float32', dtype_data='float32'), 'typed-float32', function=fn)
+                    bd.check(orc_fit_regress, dict(c1, dtype_data='float32', ridge=0.5), 'typed-float32', function=fn)
+                    bd.check(orc_fit_regress, dict(c1, again=True), 'repeated-call', function=fn)
+                    bd.check(orc_fit_regress, dict(c1, unit_data=1e8), 'units-data', function=fn)
+                    bd.check(orc_fit_regress, dict(c1, unit_data=[1e-3, 1.0, 1e6]), 'units-data', function=fn)
+                    if PENDING_UNITS_WHITENED or not method.endswith('_cov'):
+                        bd.check(orc_fit_regress, dict(c1, unit_data=1e-12), 'units-data-tiny,whitened' if method.endswith('_cov')
+                                 else 'units-data', function=fn)
+                    if not nonneg:
+                        bd.check(orc_fit_regress, dict(c1, unit_model=1e4), 'units-model', function=fn)
+                        if PENDING_UNITS_WHITENED or not method.endswith('_cov'):
+                            bd.check(orc_fit_regress, dict(c1, unit_model=1e-6, unit_data=1e-6),
+                                     'units-model-tiny,whitened' if method.endswith('_cov') else 'units-model', function=fn)
+                    elif PENDING_UNITS_NN:
+                        bd.check(orc_fit_regress, dict(c1, unit_model=1e4), 'units-model,nonneg', function=fn)
+                        bd.check(orc_fit_regress, dict(c1, unit_model=1e-6, unit_data=1e-6), 'units-model,nonneg', function=fn)
+    for si, (sample, form, by) in enumerate([([3, 1, 3, 0, 4], 'list', 'index'), ([4, 4, 0, 2, 1], 'tuple', 'str'),
+                                             ([1, 0, 1, 0, 3], 'ndarray', 'str'), ([2, 4, 2, 0, 2], 'ndarray', 'index')]):
+        for method in fit_methods:
+            for nonneg in (False, True):
+                fn = 'fit_regress_nn' if nonneg else 'fit_regress'
+                c0 = dict(seed=10400 + si, route='pattern_idx', n_cond=5, n_basis=2, n_rdm=3, sample=sample, sample_form=form, by=by,
+                          method=method, sigma='none', nonneg=nonneg, ridge=0.0)
+                bd.check(orc_fit_regress, c0, 'bootstrap-mask,sample-unsorted', function=fn)
+                bd.check(orc_fit_regress, dict(c0, dtype_model='float32', dtype_data='float32', again=True), 'bootstrap-mask,typed-float32',
+                         function=fn)
+    bd.done()
+    bds.append(bd)
+
+    # ---------------------------------------------------------------- mean
+    bd = Bounded(run, 'C13/mean[weight forms, typed, units, sizes]', 'C13/RDMs.mean/oracle/weighted-nan-aware-mean',
+                 'n_cond=3: ALL mask combinations of 2 RDMs (64) with one weight per RDM as 1-D ndarray argument and as ndarray-valued rdm '
+                 'descriptor; every %s combination with float32 RDMs, integer-typed weights (all six kinds), weights times 1e-15 / 1e12, '
+                 'RDMs times 1e-12 / 1e8; single RDMs; uint8 / int16 complete stacks; seeded stacks of 2-4 RDMs on 4-5 conditions'
+                 % ('one' if thorough else 'fifth'), function='RDMs.mean')
+    all3 = list(_masks_upto(3, 3))
+    wk_all = ['none', 'array-nan-at-missing', 'array-finite-at-missing', 'per-rdm-tiled-array-nan-at-missing', 'descriptor-per-rdm',
+              'descriptor-array-nan-at-missing', 'array-per-rdm-1d', 'descriptor-per-rdm-ndarray']
+    mi = 0
+    for r1 in all3:
+        for r2 in all3:
+            mi += 1
+            rows = [r1, r2]
+            for wk in ('array-per-rdm-1d', 'descriptor-per-rdm-ndarray'):
+                bd.check(orc_mean, dict(seed=11000 + mi, n_cond=3, rows=rows, weights=wk), 'weights-' + wk, function='RDMs.mean')
+            if thorough or mi % 5 == 0:
+                for wk in wk_all:
+                    bd.check(orc_mean, dict(seed=11000 + mi, n_cond=3, rows=rows, weights=wk, dtype='float32'), 'typed-float32',
+                             function='RDMs.mean')
+                    bd.check(orc_mean, dict(seed=11000 + mi, n_cond=3, rows=rows, weights=wk, unit=1e-12 if mi % 2 else 1e8), 'units',
+                             function='RDMs.mean')
+                    if wk != 'none':
+                        bd.check(orc_mean, dict(seed=11000 + mi, n_cond=3, rows=rows, weights=wk, w_int=True), 'weights-integer-typed',
+                                 function='RDMs.mean')
+                        bd.check(orc_mean, dict(seed=11000 + mi, n_cond=3, rows=rows, weights=wk, w_unit=1e-15 if mi % 2 else 1e12),
+                                 'weights-units', function='RDMs.mean')
+    for r1 in all3:
+        for wk in wk_all:
+            bd.check(orc_mean, dict(seed=11100 + len(r1), n_cond=3, rows=[r1], weights=wk), 'single-rdm', function='RDMs.mean')
+    for ti, (dt, lev) in enumerate((('uint8', 250), ('int16', 30000))):
+        for wk in wk_all:
+            bd.check(orc_mean, dict(seed=11200 + ti, n_cond=4, rows=[[], [], []], weights=wk, dtype=dt, levels=lev), 'typed-integer,no-missing',
+                     function='RDMs.mean')
+    rs = np.random.RandomState(31)
+    for _ in range(30 if thorough else 8):
+        n = int(rs.choice([4, 5]))
+        R = int(rs.randint(2, 5))
+        Pn = _n_pairs(n)
+        rows = [sorted(rs.choice(Pn, rs.randint(0, Pn), replace=False).tolist()) for _ in range(R)]
+        mi += 1
+        for wk in ('array-per-rdm-1d', 'descriptor-per-rdm-ndarray'):
+            bd.check(orc_mean, dict(seed=11000 + mi, n_cond=n, rows=rows, weights=wk), 'weights-' + wk, function='RDMs.mean')
+        for wk in wk_all:
+            bd.check(orc_mean, dict(seed=11000 + mi, n_cond=n, rows=rows, weights=wk, dtype='float32', w_int=(wk != 'none')), 'typed-float32',
+                     function='RDMs.mean')
+    bd.done()
+    bds.append(bd)
+
+    # ---------------------------------------------------------------- rescale
+    bd = Bounded(run, 'C13/rescale[typed, units, single RDM, repeated calls]', 'C13/rescale/oracle/positive-constant-nan-pattern-weights',
+                 'n_cond=3 mask pairs of C13/rescale (every %s): float32 stacks, stacks times 1e-12 / 1e8, the identical call twice; '
+                 'single partial RDMs; seeded stacks on 4-5 conditions as float32 and in other units; 3 methods, default threshold'
+                 % ('one' if thorough else 'fourth'), function='rescale')
+    ri = 0
+    for r1 in all3:
+        for r2 in all3:
+            if len(r1) == 3 or len(r2) == 3 or not (set(range(3)) - set(r1) - set(r2)):
+                continue
+            ri += 1
+            if not thorough and ri % 4:
+                continue
+            for method in RESCALE_METHODS:
+                c0 = dict(seed=11300 + ri, n_cond=3, rows=[r1, r2], method=method, threshold=None, scales=[1.0, 7.0])
+                bd.check(orc_rescale, dict(c0, dtype='float32'), 'typed-float32', function='_rescale')
+                bd.check(orc_rescale, dict(c0, unit=1e-12 if ri % 8 else 1e8), 'units', function='_rescale')
+                bd.check(orc_rescale, dict(c0, again=True), 'repeated-call', function='_rescale')
+    for r1 in all3:
+        if len(r1) == 3:
+            continue
+        for method in RESCALE_METHODS:
+            bd.check(orc_rescale, dict(seed=11400 + len(r1), n_cond=3, rows=[r1], method=method, threshold=None, scales=[5.0]), 'single-rdm',
+                     function='_rescale')
+    rs = np.random.RandomState(41)
+    made = 0
+    while made < (12 if thorough else 4):
+        n = int(rs.choice([4, 5]))
+        R = int(rs.randint(2, 5))
+        Pn = _n_pairs(n)
+        rows = [sorted(rs.choice(Pn, rs.randint(0, Pn - 1), replace=False).tolist()) for _ in range(R)]
+        if not _connected(_with_nan(np.ones((R, Pn)), rows)):
+            continue
+        made += 1
+        scales = (10.0 ** rs.uniform(-1, 2, size=R)).round(3).tolist()
+        for method in RESCALE_METHODS:
+            c0 = dict(seed=11500 + made, n_cond=n, rows=rows, method=method, threshold=None, scales=scales)
+            bd.check(orc_rescale, dict(c0, dtype='float32'), 'typed-float32', function='_rescale')
+            bd.check(orc_rescale, dict(c0, unit=1e-12), 'units', function='_rescale')
+            bd.check(orc_rescale, dict(c0, unit=1e8, again=True), 'units', function='_rescale')
+    bd.done()
+    bds.append(bd)
+
+    bd = Bounded(run, 'C13/rescale-proportional[typed, units]', 'C13/rescale/oracle/proportional-to-common-scale',
+                 'mutually proportional partial RDMs (chains of 2-4 partial RDMs, a condition cover, an entry-mask stack) with the '
+                 'underlying RDM times 1e-12 / 1e8 (agreement 1e-6) and as float32 partial RDMs (agreement 1e-3); 3 methods, threshold '
+                 '1e-20 (float32: 1e-12)', function='rescale')
+    pcases = [dict(seed=11600, kind='chain', K=2, size=4, share=2, scales=[1.0, 3.0]),
+              dict(seed=11601, kind='chain', K=3, size=4, share=2, scales=[100.0, 10.0, 1.0]),
+              dict(seed=11602, kind='chain', K=4, size=4, share=2, scales=[1.0, 3.0, 9.0, 27.0]),
+              dict(seed=11603, kind='cover', n_cond=5, subs=[[0, 1, 2, 3], [1, 2, 4], [0, 3, 4]], scales=[1.0, 2.5, 0.3]),
+              dict(seed=11604, kind='entries', n_cond=4, rows=[[0], [1, 2], [5]], scales=[2.0, 1.0, 0.5])]
+    for pc in pcases:
+        for method in RESCALE_METHODS:
+            for u in (1e-12, 1e8):
+                bd.check(orc_rescale_prop, dict(pc, method=method, threshold=1e-20, tol=1e-6, unit=u), 'units', function='_rescale')
+            bd.check(orc_rescale_prop, dict(pc, method=method, threshold=1e-12, tol=1e-3, dtype='float32'), 'typed-float32',
+                     function='_rescale')
+    bd.done()
+    bds.append(bd)
+
+    # ---------------------------------------------------------------- environment
+    bd = Bounded(run, 'C13/fresh-interpreter', 'C13/from_partials/oracle/literal-placement',
+                 'new interpreters with PYTHONHASHSEED %s: from_partials of str-labelled partial RDMs (order of appearance, placement, rdm '
+                 'descriptors), the 8 vector measures on the resulting common mask, mean(weights=descriptor), pooled and rescaled RDMs'
+                 % ('1, 2, 12345' if thorough else '1, 12345'), function='from_partials')
+    hs = [1, 2, 12345] if thorough else [1, 12345]
+    env_cases = [dict(seed=11700, parts=[['d', 'b', 'e'], ['e', 'b', 'd']], hashseeds=hs)]
+    if thorough:
+        env_cases += [dict(seed=11701, parts=[['zeta', 'alpha', 'mu'], ['mu', 'beta', 'alpha'], ['beta', 'zeta', 'mu']], hashseeds=hs)]
+    for c in env_cases:
+        bd.check(orc_fresh_interpreter, c, 'hash-seed', function='from_partials')
+    bd.done()
+    bds.append(bd)
+    # SWEEP-REGISTRATIONS-END
+
+
+def run(run):
     bds = tier_c(run, run.tier == 'thorough')
     run.explanation = ('tier C only: entry-deleted definitions of all comparison / pooling / noise-ceiling / regression routines on '
                        'bounded mask domains, rejection of differing masks, weighted NaN-aware mean, rescale invariants')
